@@ -232,6 +232,22 @@ def r06_9(ctx):
 
 
 def run(ctx):
+    ctx.rule("R06.12", "the foreign-content end-tag rule never pops an HTML element further down the stack (body, html stay open while the mode says so)")
+    from .C02 import foreign_end_tag_stops_at_html
+    ctx.guard("R06.12", "foreign-end-html", lambda: foreign_end_tag_stops_at_html(ctx, "R06.12"))
+    ctx.rule("R06.11", "the sink merges inserted text into the text node directly before the insertion point (RcDom append_before_sibling): no adjacent text siblings from foster-parented text")
+    from .C20 import r20_8
+    def _merge():
+        # same rule, reported under this property
+        class _P:
+            pass
+        orig = ctx.ob
+        try:
+            ctx.ob = lambda rule, *a, **kw: orig("R06.11", *a, **kw)
+            r20_8(ctx)
+        finally:
+            ctx.ob = orig
+    ctx.guard("R06.11", "merge-target", _merge)
     ctx.rule("R06.10", "the special category contains every HTML name that is certainly special (template, head, body, ... ): a stray end tag for an enclosing special element is ignored, not honoured")
     from .C02 import special_tag_html_rule
     ctx.guard("R06.10", "special", lambda: special_tag_html_rule(ctx, "R06.10"))
